@@ -47,6 +47,13 @@ def rare_inputs(rng, want, budget):
 def run(ctx):
     rng = ctx.rng
     cases = [("generate_cvv", LEGACY_WITNESS)]
+    # corpus of ultra-rare inputs (final block with 0 or 1 decimal nibbles; found once by tools/rare_search.py with
+    # the real DES - they depend on DES only, not on psec): replayed first
+    import json, os
+    cp = os.path.join(fw.VERIF, "corpus", "C09.json")
+    corpus = json.load(open(cp)) if os.path.exists(cp) else []
+    for w in corpus:
+        cases.append(("generate_cvv", (bytes.fromhex(w["cvk"]), w["pan"], w["expiry"], w["service_code"])))
     from harness import gens
     for _ in range(ctx.n(400, 4000)):
         pl = rng.choice(list(range(0, 20)))
@@ -70,4 +77,5 @@ def run(ctx):
              "whose final cipher block has fewer than 3 decimal nibbles (second decimalisation pass) + domain edges; "
              "oracle = independent CVV from single-block OpenSSL ECB; non-trivial = distinct successful calls")
     res["distribution"]["second_pass_inputs"] = len(rare) + 1
+    res["distribution"]["corpus_inputs_0_or_1_decimal_nibbles"] = len(corpus)
     return res
